@@ -72,6 +72,10 @@ func (p *FloatingIPPlugin) allocateInSubnetWithKey(oldK, newK, subnet string, at
 	if err != nil {
 		return err
 	}
+	if fip == nil {
+		// First returns nil if the ip is gone, e.g. dropped by a concurrent configuration reload
+		return fmt.Errorf("ip allocated to %s from %s during %s is no longer available", newK, oldK, when)
+	}
 	glog.Infof("allocated ip %s to %s from %s during %s", fip.IPInfo.IP.String(), newK, oldK, when)
 	return nil
 }
